@@ -11,7 +11,7 @@
     the *descriptor* only and is covered by [wf_ty]. *)
 From Coq Require Import List NArith ZArith Bool.
 From Tongo Require Import Lib.Bits Lib.Res Model.TlbCore Proofs.TlbCoreP Proofs.TlbCoreC Model.VmStack Proofs.VmStackP
-  Model.TlbExt Proofs.TlbExtP Proofs.TlbExtP2.
+  Model.TlbExt Proofs.TlbExtP Proofs.TlbExtP2 Proofs.TlbNoEncP.
 Import ListNotations.
 
 (** The encoder writes exactly the bits and references the declarative TL-B
@@ -174,6 +174,14 @@ Example C03_ext_premises_satisfiable :
   xwf_ty t = true /\ xin_domain t v = true /\
   exists c, xencode t v = Ok c /\ length (ct_refs c) = 2%nat /\ length (ct_bits c) = 1023%nat.
 Proof. vm_compute. repeat split. eexists. repeat split. Qed.
+
+(** Decode-side only by theorem: a descriptor satisfying the decidable [never_encodes]
+    (some mandatory part is a construct the encoder rejects for all values - the empty
+    union -, through structs, references and all constructors of a union) is never encoded,
+    for any value and any builder: the "encoding fails with an error" branch of the property. *)
+Theorem C03_never_encodes : forall fuel t,
+  never_encodes fuel t = true -> forall env v b b', enc env fuel t v b <> Ok b'.
+Proof. intros fuel t H env v b b'. exact (never_encodes_sound fuel t H env v b b'). Qed.
 
 (** What first-match decoding needs: without pairwise prefix-freeness the
     round trip is false — the decoder selects the earlier constructor. *)
